@@ -5,4 +5,4 @@ CONSTANTS
   Closers = {"x1"}
   ItemsPer = 2
   RecvPer = 5
-INVARIANTS PerProducerFifo NoLostWakeup
+INVARIANTS PerProducerFifo NoLostWakeup NoLoss
